@@ -67,12 +67,20 @@ def py_lex(text: str, with_error_index: bool = False):
         toks.append(('val', ''.join(b)))
         b = []
 
+    prev_cr = False
     for ch in text:
         c = ord(ch)
+        # CIF 1.1 line terminators: LF, CR LF and a bare CR (CifLexerDefs!Step): a CR acts like an LF,
+        # the LF of a CR LF pair is swallowed
+        if c == CR:
+            ch, c, was_cr = '\n', LF, True
+        elif c == LF and prev_cr:
+            prev_cr = False
+            continue
+        else:
+            was_cr = False
+        prev_cr = was_cr
         if not (c == HT or c == LF or 32 <= c <= 126):
-            if c == CR and m == 'com':      # a bare CR ends the line and with it the comment (CifLexerDefs!Step)
-                m, bol = 'ws', True
-                continue
             seterr('non_ascii_character' if c > 126 else 'control_character')
             continue
         blank = c in BLANK
@@ -251,10 +259,17 @@ def is_ambiguous_keyword_prefix(v: str) -> bool:
     return any(low.startswith(k) and len(low) > len(k) for k in ('loop_', 'stop_', 'global_'))
 
 
+def norm_breaks(v: str) -> str:
+    """CR LF and bare CR read as LF (CifLexerDefs!NormalizeBreaks): a value up to the spelling of its line ends."""
+    return v.replace('\r\n', '\n').replace('\r', '\n')
+
+
 def str_class(v: str) -> str:
     low = v.lower()
-    if '\n;' in v:
+    if '\n;' in norm_breaks(v):
         return 'lf_semi'
+    if '\r' in v:
+        return 'cr'
     if any(low.startswith(k) for k in _KW_PREFIX):
         return 'keyword'
     if v and v[0] in RESERVED_FIRST:
@@ -284,6 +299,7 @@ CLASS_TEXT = {
     'non_ascii': 'non-ASCII string value',
     'empty': 'empty string value',
     'multi_line': 'multi-line string value',
+    'cr': 'string value with CR or CR LF line ends',
     'quotes': 'string value with quote characters',
     'blanks': 'string value with blanks',
     'simple': 'plain string value',
